@@ -12,7 +12,7 @@ from vlib import *
 
 PROP = 'C16'
 IMPORTS = 'Model.BinScript Model.Labels Model.Texture Gen.InstrFmt Gen.TexFmt Corr.C16'
-W = os.path.join(WORK, 'c16')
+W = os.path.join(WORK, 'c16', 'run-%d' % os.getpid())   # per invocation: two checks of the same property may run at once
 
 # generated table row -> the Rust type whose read_instr / decode_label it describes (to pair a row that fails the
 # side conditions of Props/C16.v C16_tables_wf with the crashing file found by the harness)
@@ -207,6 +207,7 @@ def main(argv):
         'samples': [{'kind': c[0], 'case': c[1][:400]} for c in cases[:1] + cases[-2:]],
         'exhaustive': False,
     })
+    shutil.rmtree(W, ignore_errors=True)
     return v.finish(
         level='proof',
         checker_cmd='gen/instrfmt.py gen/texfmt.py ; cd coq && make theories/Corr/C16.vo theories/Props/C16.vo ; coqc work/audit_C16.v ; harness/target/debug/c16 fuzz|inproc|corr|replay ; coqc work/cases_C16/*.v',
